@@ -23,14 +23,132 @@ type lockSpec struct {
 	Key    string
 	Fields []string
 	Why    string
+	altKey string // the mutex as seen from a method of the table's own type
 }
 
 var lockTable = []lockSpec{
-	{"clientConn", "clientConn.Mutex", []string{"inflight"}, "in-flight table shared by callers, recv and broadcastErr"},
-	{"Server", "Server.openFilesLock", []string{"openFiles", "handleCount"}, "handle table of the os server shared by 9 workers"},
-	{"RequestServer", "RequestServer.mu", []string{"openRequests", "handleCount"}, "handle table of the request server shared by 9 workers"},
-	{"allocator", "allocator.Mutex", []string{"available", "used"}, "page lists shared by the receive loop, workers and controller"},
-	{"state", "state.mu", []string{"readerAt", "writerAt", "writerAtReaderAt", "listerAt", "lsoffset"}, "per-handle handler objects shared by workers"},
+	{"clientConn", "clientConn.Mutex", []string{"inflight"}, "in-flight table shared by callers, recv and broadcastErr", ""},
+	{"Server", "Server.openFilesLock", []string{"openFiles", "handleCount"}, "handle table of the os server shared by 9 workers", ""},
+	{"RequestServer", "RequestServer.mu", []string{"openRequests", "handleCount"}, "handle table of the request server shared by 9 workers", ""},
+	{"allocator", "allocator.Mutex", []string{"available", "used"}, "page lists shared by the receive loop, workers and controller", ""},
+	{"state", "state.mu", []string{"readerAt", "writerAt", "writerAtReaderAt", "listerAt", "lsoffset"}, "per-handle handler objects shared by workers", ""},
+}
+
+// resolveLockSpec follows a protected table that has been given a type of its own: when the struct no longer has the
+// listed fields but holds, by value, a struct with a mutex of its own (handles handleTable{mu, files, count}), the
+// protected fields are that struct's other fields and the mutex is its mutex, reached through the holding field.
+func (p *Program) resolveLockSpec(ls lockSpec) lockSpec {
+	nt := p.NamedType(p.Sftp, ls.Struct)
+	if nt == nil {
+		return ls
+	}
+	st, ok := nt.Underlying().(*types.Struct)
+	if !ok {
+		return ls
+	}
+	have := map[string]types.Type{}
+	for i := 0; i < st.NumFields(); i++ {
+		have[st.Field(i).Name()] = st.Field(i).Type()
+	}
+	missing := 0
+	for _, f := range ls.Fields {
+		t, ok := have[f]
+		if !ok {
+			missing++
+			continue
+		}
+		if _, isStruct := t.Underlying().(*types.Struct); isStruct && namedOf(t) != nil && namedOf(t).Obj().Pkg() == p.Sftp.Pkg {
+			missing++ // the name survives as the holder of the new type
+		}
+	}
+	if missing == 0 {
+		return ls
+	}
+	ref, _ := loadSymtab()
+	listed := map[string]bool{}
+	for _, f := range ls.Fields {
+		listed[f] = true
+	}
+	for pass := 0; pass < 2; pass++ {
+		for i := 0; i < st.NumFields(); i++ {
+			f := st.Field(i)
+			n := namedOf(f.Type())
+			inner, isStruct := f.Type().Underlying().(*types.Struct)
+			if !isStruct || n == nil || n.Obj().Pkg() != p.Sftp.Pkg {
+				continue
+			}
+			// first choice: the holder kept the name of a protected field; second: a type the reference tree does not have
+			if pass == 0 && !listed[f.Name()] {
+				continue
+			}
+			if pass == 1 {
+				if e := ref[pkgSftp+"|"+n.Obj().Name()]; e != nil {
+					continue
+				}
+			}
+			mu := ""
+			var fields []string
+			for j := 0; j < inner.NumFields(); j++ {
+				g := inner.Field(j)
+				if isMutexType(g.Type()) {
+					if g.Embedded() {
+						mu = typeName(g.Type())
+					} else {
+						mu = g.Name()
+					}
+					continue
+				}
+				fields = append(fields, g.Name())
+			}
+			if mu == "" || len(fields) == 0 {
+				continue
+			}
+			return lockSpec{Struct: n.Obj().Name(), Key: ls.Struct + "." + f.Name() + "." + mu, Fields: fields, Why: ls.Why, altKey: n.Obj().Name() + "." + mu}
+		}
+	}
+	return ls
+}
+
+// inflightSpec: the client's in-flight table and its mutex, wherever they live today.
+func (p *Program) inflightSpec() lockSpec {
+	for _, ls := range lockTable {
+		if ls.Struct == "clientConn" {
+			return p.resolveLockSpec(ls)
+		}
+	}
+	return lockSpec{Struct: "clientConn", Key: "clientConn.Mutex", Fields: []string{"inflight"}}
+}
+
+// isInflightLeaf: the value is a load of the in-flight table (the map itself).
+func (p *Program) isInflightLeaf(l leaf) bool {
+	if l.Kind != leafFieldLoad {
+		return false
+	}
+	sp := p.inflightSpec()
+	if typeName(l.Base.Type()) != sp.Struct {
+		return false
+	}
+	for _, f := range sp.Fields {
+		if f == l.Field {
+			if _, isMap := l.V.Type().Underlying().(*types.Map); isMap {
+				return true
+			}
+		}
+	}
+	return false
+}
+
+// heldInflightLock: the lock mode of the in-flight table's mutex at the instruction.
+func (p *Program) heldInflightLock(in ssa.Instruction, root ssa.Value) string {
+	sp := p.inflightSpec()
+	if h := heldAt(in, root, sp.Key); h != "" {
+		return h
+	}
+	if sp.altKey != "" {
+		// inside a method of the table type the root is the table itself
+		return heldAt(in, root, sp.altKey)
+	}
+	return ""
 }
 
 // checkLockTable enforces engine L's table for the given structs.
@@ -46,6 +164,8 @@ func checkLockTable(c *Ctx, rule string, structs ...string) {
 		if !want {
 			continue
 		}
+		origStruct := ls.Struct
+		ls = p.resolveLockSpec(ls)
 		for _, f := range ls.Fields {
 			accs := p.accessesOf(ls.Struct, f)
 			if len(accs) == 0 {
@@ -61,12 +181,15 @@ func checkLockTable(c *Ctx, rule string, structs ...string) {
 				}
 				// state is embedded in Request: root may be a *Request with path prefix state
 				held := heldAt(a.In, a.Root, ls.Key)
+				if held == "" && ls.altKey != "" {
+					held = heldAt(a.In, a.Root, ls.altKey)
+				}
 				if held == "" && ls.Struct == "state" {
 					held = heldAt(a.In, a.Root, "Request.state.mu")
 				}
 				if held == "" {
 					// named exception: the os server's end sweep after the worker join
-					if ls.Struct == "Server" && fnName(a.Fn) == "(*Server).Serve" && !a.Write {
+					if origStruct == "Server" && fnName(a.Fn) == "(*Server).Serve" && !a.Write {
 						joined := false
 						for _, w := range findInstrs(a.Fn, func(in ssa.Instruction) bool {
 							cc := callOf(in)
